@@ -122,7 +122,7 @@ class C08(Prop):
                     for a2 in range(-d, d):
                         if a1 % d == a2 % d:
                             continue
-                        for off in range(0, shape[a2]):
+                        for off in range(-(shape[a1] - 1), shape[a2]):      # negative offsets since fix 76379df
                             rot += 1
                             yield pipe([data_for("trace", shape, variant=rot % 4)], [("trace", [0], {"offset": off, "axis1": a1, "axis2": a2, "dtype": "i64" if rot % 2 else None})], eval=(rot % 3 == 0))
 
